@@ -106,7 +106,7 @@ def gen_case(book, rng):
         if rng.random() < 0.3:
             return own, '=INDEX(%s,1,%d)' % (text, c2 - c1 + 1), 'colindex', (s, c1, c2)
         return own, '=' + text, 'cols', (s, c1, c2)
-    bad = rng.choice(['Nope', 'nope', book.titles[s] + 'x', book.titles[s].lower() + '_', 'Sheet9'])
+    bad = rng.choice(['Nope', 'nope', book.titles[s] + 'x', book.titles[s].lower() + '_', 'Sheet9', '0', '1', '2', '7', '99', '01', str(s), '-1'])
     bad = bad if bad not in book.titles else bad + '9'
     pre = (bad + '!') if re.fullmatch(r'\w+', bad) and rng.random() < 0.5 else "'" + bad.replace("'", "''") + "'!"
     return own, '=' + pre + rng.choice(['A1', 'A1:B2', '$A$1', 'A:A']), 'unknown', None
